@@ -49,6 +49,7 @@ func runC01(c *Check, tier string) {
 	ruleGlobMetaComplete(c, "R01t")
 	// a record names only digests whose content was stored
 	ruleRecordOnlyAfterStore(c, "R01u")
+	ruleStoreReaderFresh(c, "R01v")
 }
 
 // ruleResolverTotal (shared with C02/C15): a function of internal/dag that turns a node's dependency list
